@@ -101,8 +101,12 @@ def extract(repo, cls_name: str) -> MachineDecl:
             if len(parts) == 4 and parts[0] == "self" and parts[2] == "events":
                 m.registrations.append({"on": parts[1], "event": parts[3], "handler": _self_attr(call.args[0]) or norm(call.args[0])})
     # public transition methods
+    from . import inline
+
     for name, meth in cls.methods.items():
-        for call in calls_in(meth.node):
+        if name == "__init__":
+            continue
+        for call in calls_in(inline.expand(repo, meth, keep={"_perform_transition"})[0]):
             if (call_name(call) or "") == "self._perform_transition" and call.args and isinstance(call.args[0], ast.Constant):
                 m.methods.setdefault(name, [])
                 m.methods[name].append(call.args[0].value)
